@@ -1269,6 +1269,14 @@ func (l *Listener) packetInput(data []byte, addr net.Addr) {
 		return
 	}
 
+	// a closed listener accepts nobody: a session created now could never be
+	// obtained (and therefore never be closed) by the application
+	select {
+	case <-l.die:
+		return
+	default:
+	}
+
 	// new session
 	s = newUDPSession(conv, l.dataShards, l.parityShards, l, l.conn, false, addr, l.block)
 	s.kcpInput(data)
@@ -1276,6 +1284,25 @@ func (l *Listener) packetInput(data []byte, addr net.Addr) {
 	l.sessions[addr.String()] = s
 	l.sessionLock.Unlock()
 	l.chAccepts <- s
+
+	// the listener may have been closed meanwhile
+	select {
+	case <-l.die:
+		l.closeBacklog()
+	default:
+	}
+}
+
+// closeBacklog closes the sessions still waiting to be accepted
+func (l *Listener) closeBacklog() {
+	for {
+		select {
+		case s := <-l.chAccepts:
+			s.Close()
+		default:
+			return
+		}
+	}
 }
 
 func (l *Listener) notifyReadError(err error) {
@@ -1395,6 +1422,9 @@ func (l *Listener) Close() error {
 	if !once {
 		return errors.WithStack(io.ErrClosedPipe)
 	}
+
+	// sessions nobody accepted can no longer be reached: release them
+	l.closeBacklog()
 
 	if l.ownConn {
 		return l.conn.Close()
